@@ -814,15 +814,31 @@ def rule_contiguous_guard(rep, fb, floor=40, name="CONTIG.data-guard"):
             continue
         cnt = {}
 
+        # locals bound to the raw pointer:  T* array = reinterpret_cast<T*>(data());
+        rawlocals = {d[1] for d in find_all(f["body"], lambda k: k[0] == "decl" and k[3] is not None and "*" in str(k[2]) and find_all((k[3],), isdata))}
+
+        def single_item(e):
+            return bool(find_all((e,), lambda k: (k[0] == "mcall" and k[1] == "isscalar") or (k[0] == "bin" and k[1] == "==" and find_all((k,), lambda m: m[0] == "mcall" and m[1] == "ndim") and ("const", 0) in (k[2], k[3]))))
+
         def onblock(stmts, cont, f=f, cnt=cnt):
             for i, s in enumerate(stmts):
                 for c in find_all(tuple(cs.head_exprs(s)), lambda k: k[0] in ("call", "mcall")):
                     args = c[2] if c[0] == "call" else c[4]
                     if c[0] == "mcall" and c[1] == "data":
                         continue
-                    if not any(find_all(a, isdata) for a in args):
+                    if not any(find_all(a, isdata) for a in args) and not any(a[0] == "var" and a[1] in rawlocals for a in args):
+                        continue
+                    child, scalar = stmts, False
+                    for pb, pi, pk in cont:
+                        if pb[pi][0] == "if" and single_item(pb[pi][1]) and child is pb[pi][2]:
+                            scalar = True      # in the then-branch of `if (ndim() == 0)`
+                        child = pb
+                    if scalar:
+                        r.ok("%s#scalar@%d" % (f["qual"], c[-1]), "zero-dimensional: a single item")
                         continue
                     nm = (c[1] if c[0] == "mcall" else str(c[1][1])).replace("kernel::", "")
+                    if nm.endswith("getitem_at0"):
+                        continue   # reads exactly one item at the pointer it is given
                     cnt[nm] = cnt.get(nm, 0) + 1
                     key = "%s#%s#%d" % (f["qual"], nm, cnt[nm])
                     where = "%s:%d" % (f["file"], c[-1])
@@ -1111,4 +1127,54 @@ def rule_record_rebuild_length(rep, fb, floor=8, name="REBUILD.record-length"):
             r.check(explicit or trimmed, key, "%s:%d" % (f["file"], m[-1] if isinstance(m[-1], int) else f["line"]),
                     "%s wraps per-field results in a RecordArray without an explicit length although the fields are not trimmed to length(): fields longer than the record array leak extra records" % f["qual"],
                     detail="explicit length" if explicit else "fields trimmed to length()")
+    return r.done()
+
+
+# ------------------------------------------------------------------------------------------------
+# L-20  an Index view is built around (ptr, offset) of ONE Index
+
+def rule_index_ptr_offset(rep, fb, floor=8, name="INDEX.ptr-offset"):
+    import re as _re
+    r = rep.rule(name, "an Index constructed around the buffer pointer of an existing Index X (X.ptr() / ptr_) takes its offset from X's offset (X.offset() / offset_, possibly plus a start): a literal or foreign offset "
+                 "is right only for an Index allocated in the same function", floor=floor)
+    cs.load_field_types(fb)
+    isidx_t = _re.compile(r"\b(Index(Of<.*>|8|U8|32|U32|64))(?!\w)")
+    for f in fb.lib_funcs(inst=False):
+        decls = cs.local_decls(f)
+        n = 0
+        for m in find_all(f["body"], lambda k: k[0] in ("ctor", "make") and _re.match(r"(const )?Index(Of<.*>|8|U8|32|U32|64)$", str(k[1])) and len(k[2]) >= 3):
+            P, O = m[2][0], m[2][1]
+            pown = None
+            if P[0] == "mcall" and P[1] == "ptr":
+                pown = P[3]
+            elif P[0] == "member" and P[2] == "ptr_":
+                pown = P[1]
+            if pown is None:
+                continue
+            while pown[0] == "deref":
+                pown = pown[1]
+            # type of the owner
+            t = None
+            fresh = False
+            if pown == ("this",):
+                t = f.get("cls") or ""
+                t = "IndexOf<T>" if t.startswith("IndexOf") else t
+            elif pown[0] == "var":
+                ds = decls.get(pown[1]) or []
+                t = " ".join(str(d[2]) for d in ds) or " ".join(pt for pn, pt in f["params"] if pn == pown[1])
+                fresh = bool(ds) and all(d[3] is not None and d[3][0] == "ctor" and d[3][2] and cs._is_lengthlike(d[3][2][0], f, decls) for d in ds)
+            elif pown[0] == "member" and pown[1] == ("this",):
+                t = cs.FIELD_TYPES.get((f.get("cls") or f["qual"].split("::")[0], pown[2]), "")
+            if not t or not isidx_t.search(str(t)):
+                continue
+            n += 1
+            key = "%s#Index#%d" % (f["qual"], n)
+            where = "%s:%d" % (f["file"], m[-1] if isinstance(m[-1], int) else f["line"])
+            own = _noline(pown)
+            from_owner = bool(find_all((O,), lambda k: (k[0] == "mcall" and k[1] == "offset" and _noline(k[3] if k[3][0] != "deref" else k[3][1]) == own) or (k[0] == "member" and k[2] == "offset_" and _noline(k[1]) == own)))
+            if fresh:
+                r.check(from_owner or O == ("const", 0), key, where, "%s views the Index `%s` it has just allocated with an offset that is neither 0 nor that Index's own" % (f["qual"], pown[1]), detail="fresh Index, offset 0")
+            else:
+                r.check(from_owner, key, where, "%s builds an Index around the buffer of `%s` with offset `%s`, which is not derived from that Index's own offset: a view of a sliced Index starts at the wrong element"
+                        % (f["qual"], str(own)[:40], str(_noline(O))[:50]), detail="offset derived from the owner's offset")
     return r.done()
